@@ -19,6 +19,7 @@ EXPLANATION = (
     'segmentation) the delivered sequence is a function of the byte stream alone.'
     ' Added later: R1 also demands that the read path refuses nothing itself: no raise of its own and `no message` only without a reader, on a failed checksum or inside the DecodeError handler (every length the 2-byte field can announce is legal).'
     ' Rounds 7-8: R6 the header codec refuses nothing but wrong prefixes / inconsistent lengths (C03.R2 re-used).'
+    ' Rounds 9-10: R3 also: every successful read is delivered (must-pass-through from the truthy result to the notification) and neither the reads of one frame nor the notification chain run under a timer; R8 (C07.R7 re-used); R9 (C03.R6 re-used): the wrapper decoders hand the payload on as received.'
 )
 ASSUMPTIONS = ["asyncio.StreamReader.readexactly(n) returns exactly n bytes or raises IncompleteReadError, independent of how the bytes arrive"]
 FLOORS = {"C13.R1": 5, "C13.R2": 3, "C13.R3": 2, "C13.R4": 1, "C13.R5": 1, "C13.R6": 1, "C13.R7": 1, "C13.R8": 1, "C13.R9": 1}
